@@ -29,7 +29,12 @@ RULE_ADDED = (
               'Also: nine kinds of wrong echo; the device refusing / failing the new PIN; time-out / '
               'late answer / read error on the UNLOCK exchange; a quarter of the serving '
               'configurations followed by a link failure, a swap to an unacceptable device and a '
-              'repair attempt cut short (nothing may be served afterwards) ')
+              'repair attempt cut short (nothing may be served afterwards) '
+              ' '
+              'Round 8: the PIN object built by manager_ledger / manager_sgx load_pin from a pa'
+              'rsed command line, a due change being either a missing file or -X with the file '
+              'present; the hang-up scenario runs with a device that passes the checks precedin'
+              'g the retries check. ')
 RULE = RULE + " " + RULE_ADDED.strip()
 ASSUMPTIONS = [
     "simulated device + fake transports trusted",
